@@ -46,7 +46,9 @@ def run_checks(ids):
         t0 = time.time()
         r = sh(["./check", pid, "quick"], cwd=MVERIF)
         viol = [l for l in r.stdout.splitlines() if l.startswith("VIOLATION") or l.startswith("KNOWN-FINDING")]
-        out[pid] = {"rc": r.returncode, "lines": viol[:6], "wall": round(time.time() - t0, 1), "tail": r.stdout[-400:] if r.returncode not in (0, 1) else ""}
+        viol.sort(key=lambda l: not l.startswith("VIOLATION"))
+        kinds = sorted({m.group(1) for l in viol for m in [re.search(r"replays/C\d+/([a-z-]+)-\d", l)] if m})
+        out[pid] = {"rc": r.returncode, "kinds": kinds, "lines": viol[:6], "wall": round(time.time() - t0, 1), "tail": r.stdout[-400:] if r.returncode not in (0, 1) else ""}
         print(pid, json.dumps(out[pid]), flush=True)
         for l in viol[:2]:
             m = re.search(r"replay=(\S+)", l)
